@@ -133,6 +133,12 @@ class FieldCodeGenerator:
                 + "(must be a basic type)."
             )
 
+        if isinstance(field_type, IntegerType) and not self._hardcoded_value.isdigit():
+            raise RuntimeError(f'"{self._hardcoded_value}" is not a valid integer value.')
+
+        if isinstance(field_type, BoolType) and self._hardcoded_value not in ("true", "false"):
+            raise RuntimeError(f'"{self._hardcoded_value}" is not a valid bool value.')
+
     def _validate_unique_name(self):
         if self._name is None:
             return
@@ -219,6 +225,8 @@ class FieldCodeGenerator:
                 expression = f'tuple({expression})'
         elif isinstance(field_type, StringType):
             expression = f'"{self._hardcoded_value}"'
+        elif isinstance(field_type, BoolType):
+            expression = "True" if self._hardcoded_value == "true" else "False"
         else:
             expression = self._hardcoded_value
 
